@@ -39,6 +39,8 @@ def sa_bases(S):
         ("join-owner", "orm", lambda: sa.select(I).join(I.owner), False),
         ("outerjoin-owner", "orm", lambda: sa.select(I).outerjoin(I.owner), False),
         ("join-owner-explicit", "orm", lambda: sa.select(I).join(O, I.owner_id == O.id), False),
+        ("join-owner-region", "orm", lambda: sa.select(I).join(I.owner).join(O.region), False),
+        ("outerjoin-owner-region", "orm", lambda: sa.select(I).outerjoin(I.owner).outerjoin(O.region), False),
         ("join-owner-where", "orm", lambda: sa.select(I).join(I.owner).where(O.rank >= 0), False),
         ("join-parts", "orm", lambda: sa.select(I).join(I.parts), False),
         ("join-tags", "orm", lambda: sa.select(I).join(I.tags), False),
@@ -137,7 +139,10 @@ def check_case(case, fenced=True):
     fences = known_ids(PROPERTY_ID) if fenced else set()
     stats = case.setdefault("_stats", {"changed": 0, "cells": 0})
     # ---- SQLAlchemy ----
-    if not (("A5" in fences or "A5" in known_ids("C04")) and uses_body_to_one(t)):
+    a8 = ("A8" in known_ids("C04")) and rel.same_model_twice(t, "Item")
+    if a8:
+        stats["excluded_a8"] = stats.get("excluded_a8", 0) + 1
+    if not a8 and not (("A5" in fences or "A5" in known_ids("C04")) and uses_body_to_one(t)):
         S = db_orm.sqlalchemy_load(inst)
         bases = sa_bases(S)
         keep = {}
@@ -146,6 +151,10 @@ def check_case(case, fenced=True):
                 continue
             if kind == "core" and navigates(t):
                 continue   # Core documents that it cannot navigate (NotImplementedError): outside this cell
+            if "region" in name and "A8" in known_ids("C04") and any(
+                    m == "Region" and p != ("owner", "region") for p, m in rel.to_one_hops(t, "Item").items()):
+                stats["excluded_a8"] = stats.get("excluded_a8", 0) + 1
+                continue   # the base joins Region through Owner.region, the filter through Org.region (A8)
             S.session.expunge_all()
             try:
                 unf = "core" if kind == "core" else ("legacy" if kind == "legacy" else "orm")
